@@ -39,3 +39,7 @@ pub trait Revision {
     /// Get the revision.
     fn rev(&self) -> u64;
 }
+
+/// Verification hooks of the (private) buffer module.
+#[cfg(gmsol_verif)]
+pub use self::buffer::verif as buffer_verif;
